@@ -183,9 +183,9 @@ fn replay_in_child(file: &Path) -> (String, String, String) {
 /// as above with a deadline; a child that has not returned by then is killed and reported as ("timeout", ..)
 fn replay_in_child_within(file: &Path, deadline: Duration) -> (String, String, String) {
     let exe = std::env::current_exe().expect("exe");
-    let errpath = Path::new(VERIF_DIR).join("work").join(format!("replay-{}.stderr", std::process::id()));
-    let outpath = Path::new(VERIF_DIR).join("work").join(format!("replay-{}.stdout", std::process::id()));
-    let _ = std::fs::create_dir_all(Path::new(VERIF_DIR).join("work"));
+    let errpath = Path::new(&verif_dir()).join("work").join(format!("replay-{}.stderr", std::process::id()));
+    let outpath = Path::new(&verif_dir()).join("work").join(format!("replay-{}.stdout", std::process::id()));
+    let _ = std::fs::create_dir_all(Path::new(&verif_dir()).join("work"));
     let spawn = (|| -> std::io::Result<std::process::Child> {
         let ef = std::fs::File::create(&errpath)?;
         let of = std::fs::File::create(&outpath)?;
@@ -323,7 +323,7 @@ fn supervise(id: &str, tier: Tier, seed: u64, only_sub: Option<String>) -> i32 {
 
     // (1) pinned reproducers of known findings
     for k in known.findings.iter().filter(|k| k.property == id) {
-        let file = Path::new(VERIF_DIR).join(&k.reproducer);
+        let file = Path::new(&verif_dir()).join(&k.reproducer);
         if !file.exists() {
             infra.push(format!("reproducer {} of {} is missing", k.reproducer, k.id));
             continue;
@@ -347,7 +347,7 @@ fn supervise(id: &str, tier: Tier, seed: u64, only_sub: Option<String>) -> i32 {
         }
     }
     // (2) regression inputs: replays/<id>/*.json must pass (or be known)
-    for file in list_json(&Path::new(VERIF_DIR).join("replays").join(id)) {
+    for file in list_json(&Path::new(&verif_dir()).join("replays").join(id)) {
         replayed += 1;
         let (outcome, sig, detail) = replay_in_child(&file);
         match outcome.as_str() {
@@ -637,7 +637,7 @@ fn supervise(id: &str, tier: Tier, seed: u64, only_sub: Option<String>) -> i32 {
         "wall_s": wall,
         "violations": violations.len(),
     });
-    let evdir = Path::new(VERIF_DIR).join("evidence");
+    let evdir = Path::new(&verif_dir()).join("evidence");
     let _ = std::fs::create_dir_all(&evdir);
     if only_sub.is_none() {
         let mut s = serde_json::to_string_pretty(&ev).unwrap();
